@@ -968,6 +968,18 @@ def _is_default_float(t) -> bool:
     return isinstance(t, Lit) and t.value in ("float64", "float", "d", "f8", "double")
 
 
+# keyword defaults of library calls, as documented by NumPy: writing them out changes nothing
+KNOWN_DEFAULTS = {
+    "numpy.linalg.norm": {"ord": None, "axis": None, "keepdims": False},
+    "numpy.triu_indices": {"k": 0, "m": None},
+    "numpy.cov": {"rowvar": True, "y": None, "fweights": None, "aweights": None},
+    "numpy.sum": {"keepdims": False}, "numpy.mean": {"keepdims": False}, "numpy.median": {"keepdims": False},
+    "numpy.argmin": {"keepdims": False}, "numpy.argmax": {"keepdims": False},
+    "numpy.trace": {"offset": 0}, "numpy.diag": {"k": 0},
+    "numpy.concatenate": {"axis": 0}, "numpy.copy": {"subok": False},
+}
+
+
 def make_app(fn: str, args, kw=None) -> T:
     args = [as_term(a) for a in args]
     kw = dict(kw or {})
@@ -986,6 +998,12 @@ def make_app(fn: str, args, kw=None) -> T:
         if len(args) == 1:
             return Slc(None, none(args[0]), None)
         return Slc(none(args[0]), none(args[1]), none(args[2]) if len(args) == 3 else None)
+    for k_, dv in KNOWN_DEFAULTS.get(fn, {}).items():
+        v_ = kw.get(k_)
+        if v_ is not None and ((isinstance(v_, Lit) and v_.value is dv and dv is None) or
+                               (isinstance(v_, Lit) and isinstance(dv, bool) and v_.value is dv) or
+                               (isinstance(v_, Poly) and not isinstance(dv, bool) and dv is not None and v_.const_value() == dv)):
+            kw.pop(k_)                  # the library's own default, spelled out
     if "axis" in kw and isinstance(kw["axis"], Lit) and kw["axis"].value is None and fn in ("numpy.mean", "numpy.sum", "numpy.median", "numpy.max", "numpy.min",
                                                                                              "numpy.argmin", "numpy.argmax", "numpy.std", "numpy.var"):
         kw.pop("axis")                  # the default, spelled out
@@ -1056,6 +1074,8 @@ def make_app(fn: str, args, kw=None) -> T:
         return Comp(c.elt, c.var, c.iter, c.conds, "list")     # materialised generator
     if fn == "builtins.list" and len(args) == 1 and isinstance(args[0], (Lst, Cat, Rep, Comp)):
         return args[0]
+    if fn == "builtins.tuple" and len(args) == 1 and not kw and isinstance(args[0], App) and args[0].fn in ("numpy.triu_indices", "numpy.tril_indices", "numpy.shape"):
+        return args[0]                  # already a tuple
     return App(fn, args, kw)
 
 
@@ -1147,6 +1167,12 @@ def length(s: T) -> T:
         if q1 is not None:
             return add(q1, ONE)           # range(lo, lo + q*step + 1, step): ceil((q*step + 1) / step) = q + 1 for step >= 1
         return App("len", (s,))
+    if isinstance(s, App) and s.fn in ("numpy.zeros", "numpy.ones", "numpy.empty", "numpy.full"):
+        shp = s.args[0] if s.args else dict(s.kw).get("shape") if s.kw else None
+        if isinstance(shp, (Lst, Tup)) and shp.elems:
+            return as_term(shp.elems[0])
+        if isinstance(shp, Attr) and shp.name == "shape":
+            return Idx(shp, (ZERO,))
     if isinstance(s, Attr) and s.name == "clusters":
         # a model state holds one ClusterParameters per cluster id: len(state.clusters) is state.arguments.num_clusters (the list is
         # created with K entries - C13 `K:empty-model` - and every write to it keeps its length - C13.R6); one spelling for both
@@ -1207,9 +1233,22 @@ def _always_divisible(num: T, den: int) -> bool:
     return True
 
 
+def _is_python_int(a: T) -> bool:
+    """len(x) and x.shape[k] are Python ints already: int() of them is the identity."""
+    if isinstance(a, App) and a.fn in ("len", "builtins.len") and len(a.args) == 1:
+        return True
+    return isinstance(a, Idx) and isinstance(a.base, Attr) and a.base.name == "shape" and len(a.idx) == 1 and isinstance(a.idx[0], Poly) \
+        and a.idx[0].const_value() is not None
+
+
 def to_int(x: T) -> T:
     """int(x).  int(p / c) for a positive integer constant c is truncdiv(p, c) - or exactly p / c when p is always a
     multiple of c."""
+    if _is_python_int(x):
+        return x
+    if isinstance(x, Poly) and len(x.terms) == 1 and x.terms[0][1] == 1 and len(x.terms[0][0]) == 1 and x.terms[0][0][0][1] == 1 \
+            and _is_python_int(x.terms[0][0][0][0]):
+        return x
     if isinstance(x, Poly):
         cv = x.const_value()
         if cv is not None:
